@@ -86,6 +86,9 @@ type Run struct {
 	order   []string
 	cfg     string // current configuration label
 	fatal   []string
+
+	perConstruct map[string]int
+	suppressed   int
 }
 
 // New starts a run.
@@ -191,6 +194,19 @@ func (r *Run) addViolation(rule, cfg, pos, construct, msg string, detail any) {
 	r.mu.Lock()
 	defer r.mu.Unlock()
 	key := rule + "\x00" + construct + "\x00" + msg
+	if _, dup := r.viols[key]; !dup {
+		// at most maxPerConstruct distinct reports per (rule, construct): a broken
+		// decision table fails on hundreds of paths; the first few name the defect
+		ck := rule + "\x00" + construct
+		if r.perConstruct == nil {
+			r.perConstruct = map[string]int{}
+		}
+		r.perConstruct[ck]++
+		if r.perConstruct[ck] > maxPerConstruct {
+			r.suppressed++
+			return
+		}
+	}
 	if v := r.viols[key]; v != nil {
 		for _, c := range v.Configs {
 			if c == cfg {
@@ -203,6 +219,8 @@ func (r *Run) addViolation(rule, cfg, pos, construct, msg string, detail any) {
 	r.viols[key] = &Violation{Property: r.Prop, Rule: rule, Configs: []string{cfg}, Pos: pos, Construct: construct, Msg: msg, Detail: detail}
 	r.order = append(r.order, key)
 }
+
+const maxPerConstruct = 4
 
 // Fatal records a failure of the machinery itself (load error, unresolved
 // anchor, analysis panic).  It fails the check.
@@ -369,9 +387,10 @@ func (r *Run) Finish() int {
 		"rules":               res,
 		"configurations":      r.Configs,
 		"known_findings":      known,
-		"not_decided":         append([]string{}, r.NotDecided...),
-		"checker_cmd":         fmt.Sprintf("/verif/check %s %s", r.Prop, r.Tier),
-		"trusted_base":        []string{"go/types, go/ssa, VTA call graph (golang.org/x/tools v0.29.0)", "the specification tables transcribed into the checker"},
+		"further_reports_on_same_construct_suppressed": r.suppressed,
+		"not_decided":  append([]string{}, r.NotDecided...),
+		"checker_cmd":  fmt.Sprintf("/verif/check %s %s", r.Prop, r.Tier),
+		"trusted_base": []string{"go/types, go/ssa, VTA call graph (golang.org/x/tools v0.29.0)", "the specification tables transcribed into the checker"},
 	}
 	if r.Exhaustive {
 		cov["exhaustive"] = true
